@@ -98,3 +98,47 @@ def compare(rows, classify, oracle, result_of=None, describe=None):
         elif exp != obs:
             res.mismatches.append((r, f"documented decision {exp!r}, code decides {obs!r} for {env}", env))
     return res
+
+
+# ------------------------------------------------------------------------------------------------ expression-tree helpers
+def subterms(x):
+    """all nested tuples of a structured expression (see FDI.xof)"""
+    if isinstance(x, tuple):
+        yield x
+        for y in x:
+            if isinstance(y, tuple):
+                yield from subterms(y)
+
+
+def eff_indices(x, rx):
+    """indices k of the effect results ('eff', name, k, args) mentioned in x whose callee matches rx"""
+    import re as _re
+    return {t[2] for t in subterms(x) if len(t) >= 3 and t[0] == 'eff' and isinstance(t[1], str) and _re.search(rx, t[1])}
+
+
+def fields_in(x):
+    return {t[2] for t in subterms(x) if len(t) == 3 and t[0] == 'field'}
+
+
+def inputs_in(x):
+    return {t[1] for t in subterms(x) if len(t) == 2 and t[0] == 'in'}
+
+
+def calls_in(x):
+    return [t for t in subterms(x) if len(t) == 3 and t[0] == 'call' and isinstance(t[1], str)]
+
+
+def is_input(x, name):
+    return strip_refs(x) == ('in', name)
+
+
+def max_leaves(x, rx=r'(^|::)max$'):
+    """flatten nested max(..) calls: list of leaf expressions"""
+    import re as _re
+    x = strip_refs(x)
+    if isinstance(x, tuple) and len(x) == 3 and x[0] == 'call' and _re.search(rx, x[1].replace('fn:', '')):
+        out = []
+        for a in x[2]:
+            out += max_leaves(a, rx)
+        return out
+    return [x]
